@@ -83,11 +83,15 @@ def run(replay=None):
     ophist = {}
     samples = []
     corr_bad = []
+    oof_cids = set(cid_ for (cid_, _), ls in M.items() if "OOF" in ls)
     for p in progs:
         def g(D, key):
             v = D.get((p.cid, key))
             return v[0] if v else None
         # --- correspondence ---
+        if p.cid in oof_cids:
+            ck.violation("correspondence", "the model's optimiser ran out of level fuel (Tree/Optimize.v optimized_full)",
+                         {"program": p.text(), "theorem_or_stage": "correspondence:level-fuel"}, no_input=True)
         # fragile structure: one of the model's shadow builds (doubles, one-ulp noise, +0 only) folds its
         # constants to something else than the main build (a NaN, pi instead of -pi, a cancelled difference)
         def fragile(nm):
